@@ -55,6 +55,14 @@ def make_class(kind, base, counter):
         ns["__len__"] = lambda self: len(self.children)
         ns["__contains__"] = lambda self, x: any(c is x for c in self.children)
         ns["__getitem__"] = lambda self, i: self.children[i]
+    elif kind == "tuple":
+        # a node that IS a tuple (a namedtuple record mixed with NodeMixin): all instances are equal and hash alike, are
+        # iterable, sized and indexable - and `"%r" % node` would unpack it
+        import collections
+        rec = collections.namedtuple("Rec", "x y")
+        ns["__new__"] = lambda cls, parent=None, children=None: rec.__new__(cls, 1, 2)
+        ns["__init__"] = init
+        return type("Adv_tuple", (rec, NodeMixin), ns)       # (a tuple subtype cannot have non-empty __slots__: NodeMixin only)
     elif kind == "plain":
         pass
     else:
